@@ -13,10 +13,11 @@ from mc.common import bump, new_result
 from mc.harness import dev_signature
 from mc.numerics import base_row
 from mc.params import pat_tensor
+from nflows import transforms as T
 
 PROPERTY = "C16"
 RULE = (
-    "every transform subject x config (<=1 deviation; thorough <=2) and every flow/distribution config x parameter pattern pat1 (thorough also init) x mode {eval, train} on 3 generic "
+    "every transform subject x config (<=1 deviation; thorough <=2) and every flow/distribution config x parameter pattern pat1 (thorough also init) x mode {eval, train, eval after one training-mode call under autograd (subjects with normalisation layers)} on 3 generic "
     "interior rows (no coordinate on a kink): scalar target = fixed-weight sum of outputs and log-dets (flows: log_probs); one case = one (subject,config,pattern,mode) with every scalar "
     "parameter (all if <= 160, else every ceil(n/160)-th, deterministically), every input coordinate and every context coordinate compared with a central finite difference at two step "
     "sizes. Non-trivial = at least one parameter has a non-zero finite-difference derivative."
@@ -25,12 +26,13 @@ ASSUMPTIONS = [
     "float64; finite differences with steps 1e-6 and 2.5e-7 (relative); a coordinate whose two step sizes disagree, or whose one-sided slopes differ by a step-independent amount (value exactly on a kink: relu(0) behind a zero bias), is a kink and is skipped and counted",
     "the parameter objects present before the first call must still be the module's parameters afterwards (otherwise an optimiser built beforehand never sees a gradient)",
     "agreement to 2e-5 relative + 1e-7*max(1,|f|) absolute; UMNN (quadrature forward, Leibniz-rule backward) to 2e-3 with the smooth integrand and 5e-2 with the default ReLU integrand",
+    "as constructed, no two trainable parameters may share one storage",
     "training mode: dropout made reproducible by seeding before every evaluation; ActNorm warmed up with one training forward before differentiating",
 ]
 
 
 def bounds(tier, seed):
-    return {"config_deviations": 1 if tier == "quick" else 2, "patterns": ["pat1"] + (["init"] if tier == "thorough" else []), "modes": ["eval", "train"], "max_scalars_per_case": 160}
+    return {"config_deviations": 1 if tier == "quick" else 2, "patterns": ["pat1"] + (["init"] if tier == "thorough" else []), "modes": ["eval", "train", "eval-after-train"], "max_scalars_per_case": 160}
 
 
 def fd_check(f, tensors, names, g_auto, tol_rel, fval, max_scalars=160):
@@ -106,7 +108,9 @@ def _replaced(m, pre):
 def transform_case(sname, cfg, pname, train, seed, res=None):
     s = C.SUBJECTS[sname]
     try:
-        m = C.materialise(s, cfg, pname, seed, dtype=torch.float64, train=train)
+        after = train == "after"  # "after": one training-mode call with autograd on, then evaluation mode -- gradients in eval must not
+        train = bool(train) and not after  # depend on (or trip over) what the training call left behind in buffers
+        m = C.materialise(s, cfg, pname, seed, dtype=torch.float64, train=train or after)
     except Exception as e:
         if res is not None:
             bump(res["skipped"], "cannot-construct (C11's subject): %s" % type(e).__name__)
@@ -139,6 +143,9 @@ def transform_case(sname, cfg, pname, train, seed, res=None):
         if train:
             with torch.no_grad():
                 target()  # warm-up: data-dependent initialisation happens here
+        if after:
+            target()  # a training-mode call under autograd (its graph is dropped here, as after a training step) ...
+            m.eval()  # ... then evaluation mode
         val = target()
     except Exception as e:
         if res is not None:
@@ -168,7 +175,9 @@ def transform_case(sname, cfg, pname, train, seed, res=None):
 def dist_case(dname, cfg, pname, train, seed, res=None):
     d = DC.DSUBJECTS[dname]
     try:
-        m = DC.materialise(d, cfg, "pat1" if pname == "patX" else pname, seed, dtype=torch.float64, train=train)
+        after = train == "after"
+        train = bool(train) and not after
+        m = DC.materialise(d, cfg, "pat1" if pname == "patX" else pname, seed, dtype=torch.float64, train=train or after)
         if pname == "patX":
             # an extreme but legal mixture: the logit of the first component of the first feature at -800 (its weight underflows to
             # exactly 0 in a softmax); values are fine, gradients have to stay finite and correct as well
@@ -198,6 +207,9 @@ def dist_case(dname, cfg, pname, train, seed, res=None):
         if train:
             with torch.no_grad():
                 target()
+        if after:
+            target()
+            m.eval()
         val = target()
     except Exception as e:
         if res is not None:
@@ -244,8 +256,30 @@ def run_unit(unit):
         if name == "MADEMoG":
             pats = pats + ["patX"]
         sig = DC.dev_signature(d, cfg)
+    # as constructed (before any dtype conversion, which would silently separate them): no two trainable parameters may live in the
+    # same storage -- otherwise neither has a derivative of its own and an optimiser step on one moves the other
+    raw = None
+    try:
+        with torch.random.fork_rng():
+            torch.manual_seed(4000 + seed)
+            raw = (C.SUBJECTS[name] if kind == "t" else DC.DSUBJECTS[name]).build(cfg)
+        seen_ptr = {}
+        if isinstance(raw, torch.nn.Module):
+            for n_, p_ in raw.named_parameters():
+                if p_.numel() == 0:
+                    continue
+                key_ = p_.untyped_storage().data_ptr()
+                if key_ in seen_ptr:
+                    res["violations"].append({"key": "%s|%s|construct:parameter|two parameters share one storage" % (name, sig), "case": {"kind": kind, "subject": name, "cfg": cfg, "pattern": "init", "train": False, "seed": seed, "storage": True},
+                                              "msg": "%s cfg=%s as constructed: parameters %s and %s live in the same storage" % (name, cfg, seen_ptr[key_], n_)})
+                    break
+                seen_ptr[key_] = n_
+    except Exception:
+        pass
     for pname in pats:
-        for train in (False, True):
+        for train in (False, True, "after"):
+            if train == "after" and not any(isinstance(mod, (T.BatchNorm, torch.nn.BatchNorm1d, torch.nn.BatchNorm2d, T.ActNorm)) for mod in (raw.modules() if isinstance(raw, torch.nn.Module) else [])):
+                continue  # (only layers that keep statistics from training calls can make a difference)
             r = (transform_case if kind == "t" else dist_case)(name, cfg, pname, train, seed, res)
             if r is None:
                 continue
@@ -258,12 +292,12 @@ def run_unit(unit):
                 res["nontrivial"] += 1
             if st["kinks"]:
                 bump(res["skipped"], "kink coordinates (two step sizes disagree)", st["kinks"])
-            bump(res["outcomes"], "%s:%s:%s" % ("transform" if kind == "t" else "dist", "train" if train else "eval", "violation" if vs else "ok"))
+            bump(res["outcomes"], "%s:%s:%s" % ("transform" if kind == "t" else "dist", ("eval-after-train" if train == "after" else ("train" if train else "eval")), "violation" if vs else "ok"))
             for cell, sym, msg in vs:
-                res["violations"].append({"key": "%s|%s|%s:%s|%s" % (name, sig, "train" if train else "eval", cell, sym), "case": {"kind": kind, "subject": name, "cfg": cfg, "pattern": pname, "train": train, "seed": seed},
-                                          "msg": "%s cfg=%s pattern=%s %s mode: %s" % (name, cfg, pname, "train" if train else "eval", msg)})
+                res["violations"].append({"key": "%s|%s|%s:%s|%s" % (name, sig, ("eval-after-train" if train == "after" else ("train" if train else "eval")), cell, sym), "case": {"kind": kind, "subject": name, "cfg": cfg, "pattern": pname, "train": train, "seed": seed},
+                                          "msg": "%s cfg=%s pattern=%s %s mode: %s" % (name, cfg, pname, ("eval-after-train" if train == "after" else ("train" if train else "eval")), msg)})
             if not res["samples"]:
-                res["samples"].append({"subject": name, "cfg": cfg, "pattern": pname, "mode": "train" if train else "eval", "scalars_checked": st["checked"]})
+                res["samples"].append({"subject": name, "cfg": cfg, "pattern": pname, "mode": ("eval-after-train" if train == "after" else ("train" if train else "eval")), "scalars_checked": st["checked"]})
     return res
 
 
@@ -275,4 +309,4 @@ def replay(case):
         sig = dev_signature(C.SUBJECTS[case["subject"]], case["cfg"])
     else:
         sig = DC.dev_signature(DC.DSUBJECTS[case["subject"]], case["cfg"])
-    return [{"key": "%s|%s|%s:%s|%s" % (case["subject"], sig, "train" if case["train"] else "eval", cell, sym), "case": case, "msg": msg} for cell, sym, msg in r[0]]
+    return [{"key": "%s|%s|%s:%s|%s" % (case["subject"], sig, ("eval-after-train" if case["train"] == "after" else ("train" if case["train"] else "eval")), cell, sym), "case": case, "msg": msg} for cell, sym, msg in r[0]]
